@@ -269,6 +269,13 @@ def parse_term(t):
     return ('?',)
 _CCACHE = {}
 _CONSTFN = {}
+class CoroutineVal:
+    """an `async` block / `async fn` body value: captured variables + resume state (0 = unresumed, 1 = returned, 2 = panicked).
+    Only coroutines that run to completion in one resume (no `.await` reached) are executed; a suspend point is Unknown."""
+    def __init__(self, ty, fields): self.ty = ty; self.f = [Cell(x) for x in fields]; self.state = 0
+    def loc(self): return self.ty.split('@', 1)[1].split(' (#')[0].rstrip('}')
+
+
 class Panic(Exception): pass
 class Abort(Exception): pass       # path infeasible / cut
 class Unknown(Exception): pass     # unmodelled callee etc -> inconclusive
@@ -430,7 +437,8 @@ class Exec:
                 lv = v.lv
             elif p[0] == 'field':
                 if hasattr(v, 'is_box'): lv = LCell(Cell(v))
-                elif isinstance(v, (Struct, Enum, ClosureVal)): lv = LCell(v.f[p[1]])
+                elif isinstance(v, (Struct, Enum, ClosureVal, CoroutineVal)): lv = LCell(v.f[p[1]])
+                elif isinstance(v, Ref) and p[1] == 0: lv = LCell(Cell(v))      # Pin<&mut T>.0 : the Pin constructors are identity models
                 else: raise Unknown('field of %r in %s' % (v, s))
             elif p[0] == 'downcast':
                 if not isinstance(v, Enum) or v.variant != p[1]: raise Unknown('bad downcast %s' % s)
@@ -467,7 +475,10 @@ class Exec:
         if op == 'BitOr': return a | b
         if op == 'BitXor': return a ^ b
         if op in ('Shl', 'ShlUnchecked'): return a << z3.ZeroExt(a.size() - b.size(), b) if b.size() < a.size() else a << z3.Extract(a.size()-1, 0, b)
-        if op in ('Shr', 'ShrUnchecked'): return z3.LShR(a, b)
+        if op in ('Shr', 'ShrUnchecked'):
+            if b.size() < a.size(): b = z3.ZeroExt(a.size() - b.size(), b)
+            elif b.size() > a.size(): b = z3.Extract(a.size() - 1, 0, b)
+            return z3.LShR(a, b)
         if op == 'Rem': return z3.URem(a, b)
         if op == 'Div': return z3.UDiv(a, b)
         if op == 'AddWithOverflow':
@@ -488,6 +499,7 @@ class Exec:
         if t == 'ref': return Ref(self.place(fr, k[1]))
         if t == 'discr':
             v = self.place(fr, k[1]).get()
+            if isinstance(v, CoroutineVal): return BV(v.state, 32)
             if not isinstance(v, Enum): raise Unknown('discriminant of %r' % v)
             return BV(_variants(self.enums, v.name, v.variant).index(v.variant), 64)
         s = s.strip()
@@ -508,6 +520,13 @@ class Exec:
         if s.startswith('PtrMetadata('):
             t = self.operand(fr, s[12:-1]).lv.get()
             return z3.BitVecVal(len(t.items), 64)
+        if s.startswith(('{coroutine@', '{async block@', '{async fn body', '{async closure')):
+            j = s.index('}') + 1
+            body = s[j:].strip(); fields = []
+            if body.startswith('{'):
+                for part in split_top(body[1:-1].strip()):
+                    k, v = part.split(': ', 1); fields.append(self.operand(fr, v))
+            return CoroutineVal(s[:j], fields)
         if s.startswith('{closure@'):
             j = s.index('}') + 1
             cv = ClosureVal(s[:j]); cv.f = []
@@ -740,6 +759,11 @@ class Exec:
                 sp = _STMT[st] = (st[:k], st[k+3:-1])
         if not sp: return
         lhs, rhs = sp
+        if lhs.startswith('discriminant('):
+            tgt = self.place(fr, lhs[13:-1]).get()
+            if isinstance(tgt, CoroutineVal):
+                tgt.state = int(rhs); return
+            raise Unknown('SetDiscriminant on %r' % (tgt,))
         base, _ = parse_place(lhs)
         v = self.rvalue(fr, rhs, fr['fn'].types.get(base))
         self.place(fr, lhs).set(v)
